@@ -222,6 +222,72 @@ pub fn stories(tier: Tier) -> Vec<(String, String)> {
     v
 }
 
+/// every position-bearing field of a save (call-stack elements, choices, thread forks), in document order
+fn positions(v: &Value, at: &str, out: &mut Vec<String>) {
+    match v {
+        Value::Object(m) => {
+            if m.contains_key("idx") || m.contains_key("cPath") {
+                out.push(format!("{at}: cPath={} idx={}", m.get("cPath").unwrap_or(&Value::Null), m.get("idx").unwrap_or(&Value::Null)));
+            }
+            for k in ["previousContentObject", "originalChoicePath", "targetPath", "currentDivertTarget"] {
+                if let Some(x) = m.get(k) {
+                    out.push(format!("{at}.{k}={x}"));
+                }
+            }
+            for (k, x) in m {
+                positions(x, &format!("{at}.{k}"), out);
+            }
+        }
+        Value::Array(a) => {
+            for (i, x) in a.iter().enumerate() {
+                positions(x, &format!("{at}[{i}]"), out);
+            }
+        }
+        _ => {}
+    }
+}
+
+/// (6) the positions the engine writes into a save denote the same positions when read back: at
+/// every node of the history tree (start state, parked flows, live threads, choice points) the
+/// save is loaded into a fresh story and saved again; every cPath/idx and path field must come back
+pub fn check_save_positions(prog: &Rc<Prog>, depth: usize, stats: &mut Stats) {
+    use crate::inst::{Op, Setup};
+    let setup = Setup { bind_externals: Some(true), allow_fallbacks: true, handler: false, observers: vec![], seed: None };
+    let sigma = super::common::sigma_hist_flows(prog);
+    crate::hx::explore(prog, &setup, depth, &sigma, false, stats, &mut |h, _r, obs, inst, st| {
+        if obs["errors"].as_array().map(|a| !a.is_empty()).unwrap_or(false) {
+            return false;
+        }
+        let s1 = inst.apply(&Op::Save);
+        let Some(j1) = s1.strip_prefix("ok:") else { return true };
+        let r = inst.apply(&Op::LoadFresh);
+        if r != "ok" {
+            return true; // C02 judges refused loads
+        }
+        let s2 = inst.apply(&Op::Save);
+        let Some(j2) = s2.strip_prefix("ok:") else { return true };
+        let (mut p1, mut p2) = (vec![], vec![]);
+        if let (Ok(a), Ok(b)) = (serde_json::from_str::<Value>(j1), serde_json::from_str::<Value>(j2)) {
+            positions(&a, "", &mut p1);
+            positions(&b, "", &mut p2);
+        }
+        st.add("save_positions_checked", p1.len() as u64);
+        st.inc("saves_round_tripped");
+        if p1 != p2 {
+            let k = (0..p1.len().max(p2.len())).find(|&k| p1.get(k) != p2.get(k)).unwrap_or(0);
+            let root = p1.get(k).map(|s| s.contains("cPath=\"\"")).unwrap_or(false);
+            st.violation(Violation {
+                property: ID.into(),
+                class: format!("{ID}/save-position/{}", if root { "root-container" } else { "other" }),
+                what: format!("a position written into a save does not come back after load + save: wrote {:?}, read back {:?} (program {}, history {:?})", p1.get(k), p2.get(k), prog.name, h.iter().map(|o| o.kind()).collect::<Vec<_>>()),
+                artefact: json!({"check": "c19", "mode": "save-positions", "source": prog.source, "program": prog.name, "history": crate::inst::hist_to_json(h)}),
+            });
+            return false;
+        }
+        true
+    });
+}
+
 pub fn run(tier: Tier) -> i32 {
     let started = std::time::Instant::now();
     let (dist, secs) = match tier {
@@ -233,6 +299,17 @@ pub fn run(tier: Tier) -> i32 {
     let (mut stats, done) = par_cases(st.len(), &ctl, |i, s| {
         check_story(&st[i].0, &st[i].1, dist, s);
     });
+    // (6) save positions over the base pool's history trees
+    let (progs, _) = pool::compile_all(&pool::base_sources().iter().map(|(n, s)| (n.to_string(), s.to_string())).collect::<Vec<_>>());
+    let srcs: Vec<(String, String)> = progs.iter().map(|p| (p.name.clone(), p.source.clone().unwrap_or_default())).collect();
+    drop(progs);
+    let depth = if tier == Tier::Quick { 4 } else { 6 };
+    let (s6, _) = par_cases(srcs.len(), &ctl, |i, s| {
+        if let CompileOutcome::Ok(p) = Prog::from_source(&srcs[i].0, &srcs[i].1) {
+            check_save_positions(&p, depth, s);
+        }
+    });
+    stats.merge(s6);
     stats.sample(json!({"story": st[0].0}));
     stats.sample(json!({"stories": st.len(), "objects": stats.get("objects"), "pairs": stats.get("pairs_checked")}));
     let exhaustive = done == st.len();
